@@ -117,6 +117,7 @@ def judge(run, group, behs, traces, batch, conf=True):
     sel = lambda idx: ([traces[i] for i in idx], [behs[i] for i in idx])   # noqa
     tri = triage(run, traces)
     if tri is None:
+        v.log("C06 %s: triage pass not accepted, validating everything on the one-by-one path" % group)
         run.validate(MODULE, STRICT, traces, behs, known_cfg=KF, group=group, batch=batch)
         return
     passing, known, other = [], [], []
@@ -128,6 +129,8 @@ def judge(run, group, behs, traces, batch, conf=True):
             known.append((i, x))
         else:
             other.append(i)
+    v.log("C06 %s: %d traces: %d pass strict, %d fail as registered known findings, %d other"
+          % (group, len(behs), len(passing), len(known), len(other)))
     if passing:
         t, b = sel(passing)
         run.validate(MODULE, STRICT, t, b, known_cfg=KF, group=group, conf_cfg=CONF if conf else None, batch=batch)
